@@ -1248,6 +1248,13 @@ def build_table_chain(h, L, R, mass, method):
     return proc, grid
 
 
+def _bucket_case(sampler, dim, n, L):
+    """(d, n, o, the implementation's bucket boxes, its is-cached-axis flags) for Model/BstAdaptedNd.v buckets / is_axis_bucket"""
+    bks = lst([lst([f"({zlit(int(l_))}, {zlit(int(r_))})" for l_, r_ in bk]) for bk in sampler._buckets_coordinates])
+    flags = lst(["true" if f_ else "false" for f_ in sampler._is_axis])
+    return f"({dim}%nat, {zlit(n)}, {zlit(L)}, {bks}, {flags})"
+
+
 def chain_nd_table(res, rng, groups, viol):
     """BINARYSEARCHTREEADAPTED (n-d) against Model/BstAdaptedNd.v, exactly: 2-d chains with arbitrary dyadic cell masses
     (mass in all four quadrants, on the axes, zeros), centred and non-centred grids; uniforms = every multiple of the
@@ -1256,7 +1263,7 @@ def chain_nd_table(res, rng, groups, viol):
     tier = res.tier
     shapes = [(0.5, 1, 1), (0.5, 2, 2), (0.25, 3, 3), (0.5, 1, 3), (0.5, 3, 2)] if tier == "quick" else \
         [(0.5, 1, 1), (0.5, 2, 2), (0.25, 3, 3), (0.5, 1, 3), (0.5, 3, 2), (0.25, 5, 5), (0.25, 2, 6), (0.125, 8, 8)]
-    g_nd = []
+    g_nd, g_bk = [], []
     for (h, L, R) in shapes:
         n = L + R + 1
         for variant in ("generic", "sparse"):
@@ -1275,6 +1282,7 @@ def chain_nd_table(res, rng, groups, viol):
                 res.broke("table chain intensity", f"{proc.intensity_of_jumps} != 1")
                 continue
             s = proc.sampling
+            g_bk.append(_bucket_case(s, 2, n, L))
             res.bump("chain_nd_table", f"[-{L},{R}]^2 {variant}")
             target = {(i - L, j - L): m for (i, j), m in mass.items()}
             us = {0.0, ulp_down(1.0)}
@@ -1359,6 +1367,8 @@ def chain_nd_table(res, rng, groups, viol):
         except Exception as e:  # noqa
             viol(f"factory raises {type(e).__name__} for a {dim}-d {cop} chain with SamplingMethod.BINARYSEARCHTREEADAPTED", error=str(e)[:200], **ctx)
             continue
+        g_bk.append(_bucket_case(proc.sampling, dim, n, L))
+        res.count(("buckets", cop, dim, n, L), kind="bucket classification (is_axis flags)")
         lam = Fr(float(proc.intensity_of_jumps))
         o = grid.origin_coordinate
         cellp = {}
@@ -1398,7 +1408,23 @@ def chain_nd_table(res, rng, groups, viol):
         tab = lst([f"({lst([zlit(c_) for c_ in cell])}, {qlit(m)})" for cell, m in sorted(cellp.items()) if m])
         draws = lst([f"({qlit(u)}, {lst([zlit(c_) for c_ in st])})" for u, st in outs])
         g_nd.append(f"({dim}%nat, {zlit(n)}, {zlit(L)}, {tab}, {draws})")
+    # Clayton chains are not exact, but their bucket lists and cached-axis flags are compared all the same (d = 2, 3)
+    for dim, L, R in ((3, 1, 1), (3, 2, 2), (2, 3, 3), (3, 2, 1)):
+        n = L + R + 1
+        axis = np.array([k * 0.5 for k in range(-L, R + 1)], dtype=float)
+        mm = [Fr(1, 2 * (n - 1))] * L + [Fr(0)] + [Fr(1, 2 * (n - 1))] * R
+        try:
+            with warnings.catch_warnings():
+                warnings.simplefilter("ignore")
+                pr = MarkovChainLevyCopula(LevyCopulaModel([C02StepModel(measure_from_cell_masses(axis, L, mm)) for _ in range(dim)],
+                                                           LC.ClaytonCopula(theta=0.7, eta=0.3)),
+                                           CTMCGrid(h=0.5, origin_coordinate=L, axes=[axis.copy() for _ in range(dim)]), SM.BINARYSEARCHTREEADAPTED)
+            g_bk.append(_bucket_case(pr.sampling, dim, n, L))
+            res.count(("buckets", "clayton", dim, n, L), kind="bucket classification (is_axis flags)")
+        except Exception as e:  # noqa
+            viol(f"factory raises {type(e).__name__} for a {dim}-d Clayton chain with SamplingMethod.BINARYSEARCHTREEADAPTED", error=str(e)[:200], left=L, right=R)
     groups.append(("bstadaptednd", "nat * Z * Z * list (list Z * Q) * list (Q * list Z)", "chk_nd", g_nd))
+    groups.append(("ndbuckets", "nat * Z * Z * list (list (Z * Z)) * list bool", "chk_buckets", g_bk))
 
 
 def chain_nd_wide(res, rng, viol):
@@ -1414,7 +1440,8 @@ def chain_nd_wide(res, rng, viol):
     from rpylib.model.levycopulamodel import LevyCopulaModel
     from rpylib.process.markovchain.markovchainlevycopula import MarkovChainLevyCopula
     tier = res.tier
-    cases = [("clayton", 2, 0.5, 2, 2), ("clayton", 2, 0.5, 1, 3), ("independent", 3, 0.5, 1, 1)]
+    cases = [("clayton", 2, 0.5, 2, 2), ("clayton", 2, 0.5, 1, 3), ("independent", 3, 0.5, 1, 1),
+             ("clayton", 3, 0.5, 1, 1), ("dependent", 3, 0.5, 1, 1), ("clayton", 3, 0.5, 2, 2), ("dependent", 3, 0.5, 2, 1)]
     if tier != "quick":
         cases += [("clayton", 2, 0.25, 5, 5), ("independent", 3, 0.5, 2, 2), ("dependent", 3, 0.5, 1, 1), ("clayton", 2, 0.25, 3, 6)]
     for cop, dim, h, L, R in cases:
@@ -1614,6 +1641,12 @@ Definition chk_inv2d (c : Z * Z * Z * list (Z * Z * Q) * Z * list (Q * (Z * Z)) 
       let '(ok, st) := go st0 draws in
       ok && zpair_eqb (i_sm st) final_sm
   end.
+
+(* _pre_computation: the bucket list (itertools.product order) and which buckets are served from the cached axis vectors *)
+Definition chk_buckets (c : nat * Z * Z * list (list (Z * Z)) * list bool) : bool :=
+  let '(dim, n, o, bks, flags) := c in
+  list_eqb (list_eqb zpair_eqb) (buckets dim n o) bks
+  && list_eqb Bool.eqb (map (is_axis_bucket dim n) (buckets dim n o)) flags.
 
 Definition chk_nd (c : nat * Z * Z * list (list Z * Q) * list (Q * list Z)) : bool :=
   let '(dim, n, o, tab, draws) := c in
